@@ -26,9 +26,12 @@ def generate_special_classes(spec: model.LSPModel, types: TypeData) -> None:
     for special_class in SPECIAL_CLASSES:
         for class_def in spec.structures + spec.typeAliases:
             if class_def.name == special_class:
-                if special_class == "InitializedParams" and class_def.properties:
+                if special_class == "InitializedParams" and (
+                    class_def.properties or class_def.extends or class_def.mixins
+                ):
                     # Only the property-less extension point is a dictionary; once the
-                    # structure declares properties it is generated like any other.
+                    # structure declares or inherits properties it is generated like
+                    # any other.
                     continue
                 generate_special_class(class_def, spec, types)
 
